@@ -109,13 +109,20 @@ CHECKS = {
         ref='DESIGN.md section 4 C07'),
     'C08': dict(
         category='exploration',
-        text='Bounded only: replacing every node by its own copy / own source / own pure AST, and cutting every '
-             'slice window of every list field and putting it back, must leave the structure unchanged; evaluated on '
-             'every node of the corpus. No deductive fragment: the round-trip law is defined by the parser and by '
-             'string manipulation outside the verifier\'s reach.',
-        note='Bounded runtime contracts (default options, norm=False). Oracle: ast.dump structural equality and '
-             'ast.parse. Nothing is proved for C08.',
-        technique='bounded runtime contracts (round-trip postconditions) on the real API; not a proof',
+        text='Bounded, with one finite obligation: the docstring encoder repr_str_multiline is the inverse of CPython\'s '
+             'string-literal decoder for every Unicode code point in 3 (thorough 8) quote / backslash contexts '
+             '(exhaustive) and for every string of length <= 6 (thorough 7) over {", \', backslash, newline, a, NUL, '
+             'e-acute} - this is the accessor read-back law for docstrings. Everything else is bounded: replacing every '
+             'node by its own copy / own source / own pure AST, cutting every slice window of every list field and '
+             'putting it back, writing docstrings (21 texts) and line comments and reading them back, and - after a '
+             'comment was written, with all caches populated - cutting and restoring the enclosing block, must leave the '
+             'structure unchanged; evaluated on every node of the corpus. The round-trip law itself is defined by the '
+             'parser and by source manipulation outside the verifier\'s reach.',
+        note='Bounded runtime contracts (default options, norm=False). Oracle: ast.dump structural equality (multi-line '
+             'string statements up to their documented re-indentation) and ast.parse. Only the encoder round trip is '
+             'decided exhaustively.',
+        technique='finite-domain evaluation of the docstring encoder against CPython\'s decoder + bounded runtime '
+                  'contracts (round-trip postconditions) on the real API',
         ref='DESIGN.md section 4 C08'),
     'C12': dict(
         category='proof',
